@@ -140,6 +140,23 @@ def run(prog, chk):
     _static_stamps(prog, chk, R, ex, ev)
     _statics(prog, chk, R)
     _phase(prog, chk, R, ev)
+    _layout_order(prog, chk)
+
+
+def _layout_order(prog, chk):
+    """base-first object layout: a class copies its base's field layout and vtable when it is populated, so every base — also one
+    reached through a generic template in the middle of the chain — must be populated before it.  The rule is C10's R10.2
+    (independence of declaration order); it is an obligation of the object model too."""
+    from .C03 import _Sub
+    from . import C10 as _c10
+    sub = _Sub(chk)
+    _c10.run(prog, sub)
+    n = 0
+    for rule, fn, site, ok, detail, key in sub.obs:
+        if rule == 'R10.2':
+            n += 1
+            chk.ob('R08.1', fn, site, ok, 'layout order: ' + detail, key='layout:' + str(key))
+    chk.count('layout-order obligations (C10 R10.2)', n, 1)
 
 
 # ------------------------------------------------------------------------------------------------------
@@ -947,6 +964,38 @@ def _static_stamps(prog, chk, R, ex, ev):
             chk.ob('R08.4', f, rn.ln or f.ln, ok, 'the value returned by %s carries the declared return class as its stamp (`k.f(mk())` with mk() declared to return Base resolves f(Base))' % f.short,
                    key='stamp:return:' + f.short)
     chk.count('activation results', nret, 2)
+    # (b'') stores into an existing typed slot (fields, statics, variables): the stored copy takes the slot's static class — either
+    # stamped from the field's declared type, or keeping the stamp the slot already has.  The sibling store paths must agree:
+    # `guest = d;` (bare field name), `this.guest = d;`, a static, a local.
+    nst = 0
+    slot_fns = [x for x in prog.functions if x.kind == 'function' and x.file.endswith('runtime_evaluator.cpp') and x.body and len(x.params) == 2
+                and x.params[0]['type'].replace(' ', '').endswith('Value&') and 'const' not in x.params[0]['type']
+                and x.params[1]['type'].replace(' ', '') in ('constbloch::runtime::Value&', 'constValue&') and (x.ret or 'void') == 'void']
+    slot_names = {x.name for x in slot_fns if x.key not in stampers}
+    for f in [x for x in R.ev_methods() if x.body]:
+        g = prog.cfg(f)
+        stores = []
+        for c in g.calls(lambda e: e['k'] == 'call' and e.get('callee') in slot_names):
+            stores.append((c, SX.strip(_args(c.e)[1])))
+        if f.short == 'assign':
+            for n, l, r, op in g.writes():
+                l0 = SX.strip(l)
+                if op == '=' and SX.is_node(l0) and l0.get('k') == 'member' and l0.get('name') == 'value' and 'Value' in (l0.get('t') or ''):
+                    stores.append((n, SX.strip(r)))
+        for node, val in stores:
+            nst += 1
+            ok = _stamped(prog, g, node, val, stampers)
+            if not ok and SX.is_node(val) and val.get('k') == 'ref' and val.get('kind') == 'var':
+                # keeps the slot's own stamp: `newVal.className = existing.className` (under the both-are-objects guard) on a path to the store
+                back = g.reachable([node], forward=False)
+                for wn, l, r, op in g.writes():
+                    if wn.id in back and op == '=' and _member_of(l, 'className', val.get('id')) and _mentions(r, lambda x: x.get('k') == 'member' and x.get('name') == 'className'):
+                        ok = True
+            chk.ob('R08.4', f, node.ln or f.ln, ok,
+                   'the value stored into an existing slot (%s) takes the slot\'s static class (stamped from the declared type, or keeping the slot\'s stamp): '
+                   'with the dynamic class there, a later `k.f(slot)` runs f(Derived) although the analyser resolved f(Base)' % SX.show(val)[:30],
+                   key='stamp:store:%s:%s' % (f.short, SX.show(val)[:20]))
+    chk.count('stores into existing slots', nst, 4)
     # (c) a stamped null reference is costed by its stamp, only the literal null costs 3
     rt = R.ev_method('valueConversionCost')
     nulls = [i_ for i_ in SX.walk(rt.body, into_lambdas=False) if i_['k'] == 'if' and
